@@ -153,7 +153,8 @@ def _gen_h2(rng, n, tier):
         if kind == "stream_rst":
             # a request the client gives up on: from its RST_STREAM on the stream no longer keeps the connection busy
             tag = n * 10 + sid
-            delay = rng.choice([4 * T, 6 * T])
+            # (the abandoned application finishes later: sometimes inside the idle period that its reset started)
+            delay = rng.choice([1.2 * T, 1.2 * T, 4 * T, 6 * T])
             by_tag[str(tag)] = _app_delay(delay, tag)
             client.append(["feed", fb.headers(sid, [(b":method", b"GET"), (b":scheme", b"http"), (b":path", b"/t%d" % tag),
                                                     (b":authority", b"h.example")], end_stream=True)])
